@@ -19,12 +19,13 @@ INT_TYPES = {
 
 class Cell:
     """A mutable memory location (a local, a Box/Arc pointee, an environment object)."""
-    __slots__ = ('v', 'name', 'id')
+    __slots__ = ('v', 'name', 'id', 'tracked')
 
     def __init__(self, v=None, name=''):
         self.v = v
         self.name = name
         self.id = next(_ids)
+        self.tracked = False
 
     def __repr__(self):
         return 'Cell#%d(%s)' % (self.id, self.name)
